@@ -62,22 +62,28 @@ theorem C10_lookahead (c : Cfg) (s : State) (hr : Reachable c s) (hn : 0 < c.n) 
   have := (hi.forks f hf).inc_out
   split at hb <;> omega
 
-/-- The window: it never holds more than `buffer_size` boxes, and the fork that pops it is the
-    last fork to have counted the box, pops its own box, and that box is the oldest one in the
-    window (so `buffer.get()` never blocks and never removes a box somebody still needs). -/
+/-- The window: it never holds more than `buffer_size` boxes; no popped box is still needed
+    (`popped ≤ inc f`); a count never exceeds the number of forks; `with box.lock` is a mutex
+    (at most one fork between `box.n += 1` and the end of the `with` block of a box — this is what
+    makes the separate line `if box.n == n_forks` read the fork's own count); and the fork that
+    pops is the last fork to have counted the box, pops its own box, which is the oldest one in
+    the window (so `buffer.get()` never blocks and never removes a box somebody still needs). -/
 theorem C10_window (c : Cfg) (s : State) (hr : Reachable c s) (hn : 0 < c.n) :
     s.popped ≤ s.put ∧ s.put ≤ s.popped + c.bs ∧
     (∀ f, f < c.n → s.popped ≤ (s.forks f).inc) ∧
+    (∀ j, s.cnt j ≤ c.n) ∧
+    (∀ f g j, f < c.n → g < c.n → holdsBox (s.forks f) j = true → holdsBox (s.forks g) j = true → f = g) ∧
     (∀ f, f < c.n → (s.forks f).pc = .bGet →
       (s.forks f).cur = some s.popped ∧ s.popped < s.put ∧ ∀ g, g < c.n → s.popped < (s.forks g).inc) := by
   obtain ⟨hi, h2⟩ := inv12_reachable c hn hr
-  refine ⟨hi.win.1, hi.win.2, h2.pop_le, ?_⟩
-  intro f hf hp
-  obtain ⟨h1, h3, h4⟩ := get_own c s hi h2 f hf hp
-  refine ⟨h1, h4, ?_⟩
-  intro g hg
-  have := (h2.get_inv f hf hp).1 g hg
-  omega
+  refine ⟨hi.win.1, hi.win.2, h2.pop_le, ?_, h2.mutex, ?_⟩
+  · intro j; rw [h2.cnt_eq j]; exact countF_le _ _
+  · intro f hf hp
+    obtain ⟨h1, h3, h4⟩ := get_own c s hi h2 f hf hp
+    refine ⟨h1, h4, ?_⟩
+    intro g hg
+    have := h2.get_inv f hf hp g hg
+    omega
 
 /-- The source lock is held only inside the `try … finally: release()` regions: its holder is a
     fork between its successful acquire and its release.  In particular a fork that is between two
@@ -151,10 +157,10 @@ example :
       (s.forks 0).fin = some .stop ∧ (s.forks 1).fin = some .stop ∧ s.lock = none ∧ s.pulled = 1 := by
   refine ⟨_, ⟨[⟨1, .call⟩, ⟨1, .hget⟩, ⟨1, .hget⟩, ⟨1, .acqOk⟩, ⟨1, .hget⟩, ⟨1, .pull⟩, ⟨1, .put⟩, ⟨1, .hset⟩,
       ⟨1, .rel⟩, ⟨1, .hget⟩, ⟨1, .hget⟩, ⟨1, .nget⟩, ⟨1, .acqOk⟩, ⟨1, .nget⟩, ⟨1, .srcEnd⟩, ⟨1, .rel⟩,
-      ⟨1, .bacq⟩, ⟨1, .inc⟩, ⟨1, .brel⟩, ⟨1, .nget⟩, ⟨1, .recv⟩, ⟨1, .call⟩, ⟨1, .hget⟩, ⟨1, .stop⟩,
-      ⟨0, .call⟩, ⟨0, .hget⟩, ⟨0, .hget⟩, ⟨0, .nget⟩, ⟨0, .acqOk⟩, ⟨0, .nget⟩, ⟨0, .srcEnd⟩,
-      ⟨0, .rel⟩, ⟨0, .bacq⟩, ⟨0, .inc⟩, ⟨0, .get⟩, ⟨0, .brel⟩, ⟨0, .nget⟩, ⟨0, .recv⟩, ⟨0, .call⟩,
-      ⟨0, .hget⟩, ⟨0, .stop⟩], rfl⟩, ?_⟩
+      ⟨1, .bacq⟩, ⟨1, .inc⟩, ⟨1, .ncmp⟩, ⟨1, .brel⟩, ⟨1, .nget⟩, ⟨1, .recv⟩, ⟨1, .call⟩, ⟨1, .hget⟩,
+      ⟨1, .stop⟩, ⟨0, .call⟩, ⟨0, .hget⟩, ⟨0, .hget⟩, ⟨0, .nget⟩, ⟨0, .acqOk⟩, ⟨0, .nget⟩,
+      ⟨0, .srcEnd⟩, ⟨0, .rel⟩, ⟨0, .bacq⟩, ⟨0, .inc⟩, ⟨0, .ncmp⟩, ⟨0, .get⟩, ⟨0, .brel⟩, ⟨0, .nget⟩,
+      ⟨0, .recv⟩, ⟨0, .call⟩, ⟨0, .hget⟩, ⟨0, .stop⟩], rfl⟩, ?_⟩
   decide
 
 /-- the source fails at its first pull: both forks end with the exception, the source is pulled
@@ -164,9 +170,9 @@ example :
     ∃ s, Reachable c s ∧ Final c s ∧ (s.forks 0).out = [] ∧ (s.forks 0).fin = some .exc ∧
       (s.forks 1).fin = some .exc ∧ s.lock = none ∧ s.boxes = 1 ∧ s.endPulls = 0 := by
   refine ⟨_, ⟨[⟨1, .call⟩, ⟨1, .hget⟩, ⟨1, .hget⟩, ⟨1, .acqOk⟩, ⟨1, .hget⟩, ⟨1, .srcExc⟩, ⟨1, .put⟩,
-      ⟨1, .hset⟩, ⟨1, .rel⟩, ⟨1, .hget⟩, ⟨1, .hget⟩, ⟨1, .nget⟩, ⟨1, .bacq⟩, ⟨1, .inc⟩, ⟨1, .brel⟩,
-      ⟨1, .nget⟩, ⟨1, .exc⟩, ⟨0, .call⟩, ⟨0, .hget⟩, ⟨0, .hget⟩, ⟨0, .nget⟩, ⟨0, .bacq⟩, ⟨0, .inc⟩,
-      ⟨0, .get⟩, ⟨0, .brel⟩, ⟨0, .nget⟩, ⟨0, .exc⟩], rfl⟩, ?_⟩
+      ⟨1, .hset⟩, ⟨1, .rel⟩, ⟨1, .hget⟩, ⟨1, .hget⟩, ⟨1, .nget⟩, ⟨1, .bacq⟩, ⟨1, .inc⟩, ⟨1, .ncmp⟩,
+      ⟨1, .brel⟩, ⟨1, .nget⟩, ⟨1, .exc⟩, ⟨0, .call⟩, ⟨0, .hget⟩, ⟨0, .hget⟩, ⟨0, .nget⟩, ⟨0, .bacq⟩,
+      ⟨0, .inc⟩, ⟨0, .ncmp⟩, ⟨0, .get⟩, ⟨0, .brel⟩, ⟨0, .nget⟩, ⟨0, .exc⟩], rfl⟩, ?_⟩
   decide
 
 /-- the source fails after one element: both forks receive `[0]`, then the exception -/
@@ -176,25 +182,26 @@ example :
       (s.forks 0).fin = some .exc ∧ (s.forks 1).fin = some .exc ∧ s.lock = none := by
   refine ⟨_, ⟨[⟨1, .call⟩, ⟨1, .hget⟩, ⟨1, .hget⟩, ⟨1, .acqOk⟩, ⟨1, .hget⟩, ⟨1, .pull⟩, ⟨1, .put⟩, ⟨1, .hset⟩,
       ⟨1, .rel⟩, ⟨1, .hget⟩, ⟨1, .hget⟩, ⟨1, .nget⟩, ⟨1, .acqOk⟩, ⟨1, .nget⟩, ⟨1, .srcExc⟩,
-      ⟨1, .nset⟩, ⟨1, .put⟩, ⟨1, .rel⟩, ⟨1, .bacq⟩, ⟨1, .inc⟩, ⟨1, .brel⟩, ⟨1, .nget⟩, ⟨1, .recv⟩,
-      ⟨1, .call⟩, ⟨1, .nget⟩, ⟨1, .bacq⟩, ⟨1, .inc⟩, ⟨1, .brel⟩, ⟨1, .nget⟩, ⟨1, .exc⟩, ⟨0, .call⟩,
-      ⟨0, .hget⟩, ⟨0, .hget⟩, ⟨0, .nget⟩, ⟨0, .bacq⟩, ⟨0, .inc⟩, ⟨0, .get⟩, ⟨0, .brel⟩, ⟨0, .nget⟩,
-      ⟨0, .recv⟩, ⟨0, .call⟩, ⟨0, .nget⟩, ⟨0, .bacq⟩, ⟨0, .inc⟩, ⟨0, .get⟩, ⟨0, .brel⟩, ⟨0, .nget⟩,
-      ⟨0, .exc⟩], rfl⟩, ?_⟩
+      ⟨1, .nset⟩, ⟨1, .put⟩, ⟨1, .rel⟩, ⟨1, .bacq⟩, ⟨1, .inc⟩, ⟨1, .ncmp⟩, ⟨1, .brel⟩, ⟨1, .nget⟩,
+      ⟨1, .recv⟩, ⟨1, .call⟩, ⟨1, .nget⟩, ⟨1, .bacq⟩, ⟨1, .inc⟩, ⟨1, .ncmp⟩, ⟨1, .brel⟩, ⟨1, .nget⟩,
+      ⟨1, .exc⟩, ⟨0, .call⟩, ⟨0, .hget⟩, ⟨0, .hget⟩, ⟨0, .nget⟩, ⟨0, .bacq⟩, ⟨0, .inc⟩, ⟨0, .ncmp⟩,
+      ⟨0, .get⟩, ⟨0, .brel⟩, ⟨0, .nget⟩, ⟨0, .recv⟩, ⟨0, .call⟩, ⟨0, .nget⟩, ⟨0, .bacq⟩, ⟨0, .inc⟩,
+      ⟨0, .ncmp⟩, ⟨0, .get⟩, ⟨0, .brel⟩, ⟨0, .nget⟩, ⟨0, .exc⟩], rfl⟩, ?_⟩
   decide
 
-/-- the look-ahead bound is attained: fork 1 has received nothing, `pulled = 4 = 0 + bs + 2`
+/-- the look-ahead bound is attained: fork 0 has received nothing, `pulled = 4 = 0 + bs + 2`
     (it has counted box 0, which the faster fork's pop removed from the window); the state is not
     final, so it also meets the hypotheses of `C10_progress` -/
 example :
     let c : Cfg := { n := 2, bs := 2, len := 5, fail := false }
-    ∃ s, Reachable c s ∧ ¬ Final c s ∧ (s.forks 1).out = [] ∧ s.pulled = 4 ∧ s.popped = 1 ∧ s.put = 3 := by
-  refine ⟨_, ⟨[⟨0, .call⟩, ⟨0, .hget⟩, ⟨0, .hget⟩, ⟨0, .acqOk⟩, ⟨0, .hget⟩, ⟨0, .pull⟩, ⟨0, .put⟩, ⟨0, .hset⟩,
-      ⟨0, .rel⟩, ⟨0, .hget⟩, ⟨0, .hget⟩, ⟨0, .nget⟩, ⟨0, .acqOk⟩, ⟨0, .nget⟩, ⟨0, .pull⟩, ⟨0, .nset⟩,
-      ⟨0, .put⟩, ⟨0, .rel⟩, ⟨0, .bacq⟩, ⟨0, .inc⟩, ⟨0, .brel⟩, ⟨0, .nget⟩, ⟨0, .recv⟩, ⟨0, .call⟩,
-      ⟨0, .nget⟩, ⟨0, .acqOk⟩, ⟨0, .nget⟩, ⟨0, .pull⟩, ⟨0, .nset⟩, ⟨1, .call⟩, ⟨1, .hget⟩, ⟨1, .hget⟩,
-      ⟨1, .nget⟩, ⟨1, .bacq⟩, ⟨1, .inc⟩, ⟨1, .get⟩, ⟨0, .put⟩, ⟨0, .rel⟩, ⟨0, .bacq⟩, ⟨0, .inc⟩,
-      ⟨0, .brel⟩, ⟨0, .nget⟩, ⟨0, .recv⟩, ⟨0, .call⟩, ⟨0, .nget⟩, ⟨0, .acqOk⟩, ⟨0, .nget⟩, ⟨0, .pull⟩], rfl⟩, ?_⟩
+    ∃ s, Reachable c s ∧ ¬ Final c s ∧ (s.forks 0).out = [] ∧ (s.forks 1).out = [0, 1] ∧ s.pulled = 4 ∧ s.popped = 1 ∧ s.put = 3 := by
+  refine ⟨_, ⟨[⟨1, .call⟩, ⟨1, .hget⟩, ⟨1, .hget⟩, ⟨1, .acqOk⟩, ⟨1, .hget⟩, ⟨1, .pull⟩, ⟨1, .put⟩, ⟨1, .hset⟩,
+      ⟨1, .rel⟩, ⟨1, .hget⟩, ⟨1, .hget⟩, ⟨1, .nget⟩, ⟨1, .acqOk⟩, ⟨1, .nget⟩, ⟨1, .pull⟩, ⟨1, .nset⟩,
+      ⟨1, .put⟩, ⟨1, .rel⟩, ⟨1, .bacq⟩, ⟨1, .inc⟩, ⟨0, .call⟩, ⟨0, .hget⟩, ⟨0, .hget⟩, ⟨0, .nget⟩,
+      ⟨1, .ncmp⟩, ⟨1, .brel⟩, ⟨1, .nget⟩, ⟨1, .recv⟩, ⟨1, .call⟩, ⟨1, .nget⟩, ⟨1, .acqOk⟩, ⟨1, .nget⟩,
+      ⟨0, .bacq⟩, ⟨0, .inc⟩, ⟨0, .ncmp⟩, ⟨0, .get⟩, ⟨1, .pull⟩, ⟨1, .nset⟩, ⟨1, .put⟩, ⟨1, .rel⟩,
+      ⟨1, .bacq⟩, ⟨1, .inc⟩, ⟨1, .ncmp⟩, ⟨1, .brel⟩, ⟨1, .nget⟩, ⟨1, .recv⟩, ⟨1, .call⟩, ⟨1, .nget⟩,
+      ⟨1, .acqOk⟩, ⟨1, .nget⟩, ⟨1, .pull⟩], rfl⟩, ?_⟩
   decide
 
 end Tee
